@@ -74,7 +74,7 @@ func BFS(cfg BFSConfig, body func(*Ctx)) *BFSResult {
 			return o
 		}
 		if pmsg != "" {
-			o.fails = append(o.fails, Failure{"panic", PanicSignature(pmsg), pmsg})
+			o.fails = append(o.fails, Failure{Clause: "panic", Sig: PanicSignature(pmsg), Msg: pmsg})
 		}
 		if len(c.choices) < len(h) && pmsg == "" {
 			o.dead = true // no enabled step in the state reached by h[:len-1]
